@@ -1,0 +1,19 @@
+//go:build verif
+
+package charsets
+
+import "golang.org/x/text/encoding"
+
+// Verification hooks for property C15. Add-only, build tag verif.
+
+// VerifPrescan is the HTML prescan that FindEncoding falls back to when no byte-order mark matches.
+func VerifPrescan(content []byte) (encoding.Encoding, string) { return prescan(content) }
+
+// VerifBOMs returns the byte-order-mark table of FindEncoding in order (mark, label).
+func VerifBOMs() (marks [][]byte, labels []string) {
+	for _, b := range boms {
+		marks = append(marks, append([]byte(nil), b.bom...))
+		labels = append(labels, b.enc)
+	}
+	return
+}
